@@ -9,6 +9,7 @@
    and the oracle (tested_only). *)
 From Coq Require Import String ZArith Bool Arith List PrimFloat.
 From SV Require Import Names Rep Complex Homology Filtration Gen World Small Sweeps Floats VInv FlagSound FlagComplete VRProofs CopyOk FlagFinal.
+From SV Require FloatMono.
 Import ListNotations.
 
 Theorem C12_family_upto4_partial :
@@ -66,3 +67,14 @@ Theorem C12_all_pairs_close_full_simplex :
   forall B, NoDup B -> 2 <= length B -> incl B ss -> carried r' B.
 Proof. exact vr_all_pairs. Qed.
 Print Assumptions C12_all_pairs_close_full_simplex.
+
+(* ON DOUBLES: the closeness test distance(p, q) <= eps is monotone in eps -- a pair close at eps1 is close at every
+   eps2 with eps1 <= eps2 -- so the list of close pairs handed to the construction grows with eps, and with
+   C12_monotone so does the complex.  Uses the standard library's specification of the primitive comparison
+   (FloatAxioms.leb_spec, an axiom of the standard library: leb is SFleb on the decoded numbers); transitivity of SFleb
+   is proved by cases. *)
+Theorem C12_closeness_is_monotone_in_eps :
+  forall eps1 eps2 (pairs : list (list float * list float)), PrimFloat.leb eps1 eps2 = true ->
+  incl (filter (fun pq => close eps1 (fst pq) (snd pq)) pairs) (filter (fun pq => close eps2 (fst pq) (snd pq)) pairs).
+Proof. exact FloatMono.close_pairs_monotone. Qed.
+Print Assumptions C12_closeness_is_monotone_in_eps.
